@@ -29,5 +29,5 @@ def run(ctx):
     rep.guarded("W2a", "anstream::strip::write", lambda: stripstream.rule_W2(facts, rep))
     rep.guarded("W4", "anstream::strip::write_all", lambda: stripstream.rule_W4(facts, rep))
     rep.guarded("W5", "anstream::strip", lambda: stripstream.rule_through(facts, rep, "W5"))
-    for r, n in (("W1", 4), ("W2a", 2), ("W2b", 1), ("W3", 5), ("W4", 10), ("W5", 7)):
+    for r, n in (("W1", 7), ("W2a", 2), ("W2b", 1), ("W3", 5), ("W4", 12), ("W5", 7)):
         rep.floor(r, n)
